@@ -190,6 +190,8 @@ def handle (be : Backend) (b : Build) (toks : List String) : String :=
     "sI " ++ bit (Spec.literalUpper d) ++ bit (Spec.literalLower d) ++ bit (Spec.literalIsV4 d)
   | ["sS", s] => "sS " ++ bit (Spec.reserved (unhex s))
   | ["sT", s] => "sT " ++ (match Spec.csvClass Gen.csvPuny (unhex s) with | some c => toString c | none => "-26")
+  | ["Ft", f] => "Ft " ++ " ".intercalate ((cliLines (unhex f)).map hexOf)
+  | ["Fs", t] => "Fs " ++ hexOf (sanitize (unhex t))
   | t :: _ => t ++ " BADOP"
   | [] => ""
 
